@@ -53,6 +53,11 @@ type vfC45Plan struct {
 func vfC45GenPlan(kind int) func(rt *rapid.T) vfC45Plan {
 	return func(rt *rapid.T) vfC45Plan {
 		g := &vfC45G{rt: rt, budget: vfC45FieldBudet, kind: kind, wild: rapid.SampledFrom([]int{0, 0, 0, 1, 1, 2}).Draw(rt, "wild")}
+		if w := g.roll("wild_roll"); w >= 60 {
+			g.wild = 1 + (w-60)/30
+		} else {
+			g.wild = 0
+		}
 		mt, err := protoregistry.GlobalTypes.FindMessageByName(protoreflect.FullName(vfC45Roots[kind]))
 		if err != nil {
 			panic("root type not linked: " + vfC45Roots[kind])
@@ -64,9 +69,9 @@ func vfC45GenPlan(kind int) func(rt *rapid.T) vfC45Plan {
 			panic(fmt.Sprintf("harness: cannot marshal generated %s: %v", vfC45Roots[kind], err))
 		}
 		p := vfC45Plan{Kind: kind, TypeURL: "type.googleapis.com/" + vfC45Roots[kind], Value: b,
-			Wrap: rapid.IntRange(0, 5).Draw(rt, "wrap") == 0, Env: rapid.Uint32Range(0, 255).Draw(rt, "env")}
+			Wrap: g.roll("wrap") < 15, Env: uint32(g.roll("env_lo")) | uint32(g.roll("env_hi"))<<4&0xf0}
 		// a few shallow corruptions of the envelope
-		switch rapid.IntRange(0, 39).Draw(rt, "shallow") {
+		switch g.roll("shallow") * 2 / 5 { // 0..39
 		case 0:
 			p.TypeURL = "type.googleapis.com/" + vfC45Roots[(kind+1)%4]
 			p.Shallow = "wrong_type_url"
@@ -511,15 +516,36 @@ var vfC45ErrRe = regexp.MustCompile(`[^a-zA-Z_ ]+`)
 
 func vfC45ErrClass(err error) string {
 	s := err.Error()
+	head, tail := s, ""
 	if i := strings.IndexAny(s, "{%\""); i > 0 {
-		s = s[:i]
+		head = s[:i]
+		if j := strings.LastIndexAny(s, "}\""); j > i {
+			tail = s[j+1:]
+		}
 	}
-	s = vfC45ErrRe.ReplaceAllString(s, " ")
-	w := strings.Fields(s)
-	if len(w) > 7 {
-		w = w[:7]
+	clean := func(x string, n int, fromEnd bool) string {
+		w := strings.Fields(vfC45ErrRe.ReplaceAllString(x, " "))
+		if len(w) > n {
+			if fromEnd {
+				w = w[len(w)-n:]
+			} else {
+				w = w[:n]
+			}
+		}
+		return strings.Join(w, "_")
 	}
-	return strings.Join(w, "_")
+	c := clean(head, 5, false)
+	if i := strings.Index(s, "no filter implementation found for \""); i >= 0 {
+		u := s[i+len("no filter implementation found for \""):]
+		if j := strings.Index(u, "\""); j >= 0 {
+			u = u[:j]
+		}
+		return "no_filter_implementation:" + u[strings.LastIndex(u, ".")+1:]
+	}
+	if t := clean(tail, 6, true); t != "" {
+		c += ".." + t
+	}
+	return c
 }
 
 func vfC45Run(_ *testing.T, p vfC45Plan) vk.Result {
